@@ -142,6 +142,10 @@ func genValidMatch(t *rapid.T, label string, cc DCfg, have int, o decOpts) (m, o
 // corrupts one sequence.
 func genBlock(t *rapid.T, cc DCfg, have int, o decOpts, hostile bool) (seqs []lz.Seq, lits []byte) {
 	ns := rapid.IntRange(0, 4).Draw(t, "nseq")
+	if rapid.IntRange(0, 5).Draw(t, "manySeqs") == 0 {
+		// a block that needs several rounds of making room
+		ns = rapid.IntRange(5, 16).Draw(t, "nseqMany")
+	}
 	cur := have
 	budget := genItemSize // alias for readability
 	for i := 0; i < ns; i++ {
@@ -170,7 +174,19 @@ func genBlock(t *rapid.T, cc DCfg, have int, o decOpts, hostile bool) (seqs []lz
 		cur += ll + int(s.MatchLen)
 	}
 	tl := 0
-	switch weighted(t, "trailKind", 3, 3, 2) {
+	switch weighted(t, "trailKind", 3, 3, 2, 2) {
+	case 3:
+		// a literal tail that is longer than flushing can make room for
+		free := maxInt(cc.BufferSize-cc.WindowSize, 1)
+		tl = free + rapid.IntRange(1, minInt(2*free+3, 4096)).Draw(t, "trailOver")
+		if o.noOversize {
+			tl = free
+		}
+		if free > 1<<12 {
+			// (the default geometry: megabytes per block; the large
+			// decoder histories cover it)
+			tl = budget(t, "trailBigDefault", cc, o)
+		}
 	case 0:
 		tl = 0
 	case 1:
